@@ -655,6 +655,10 @@ impl World {
 
   fn resolve_rune_id(&self, m: &Model, r: &RuneIdRef, held: &[RuneId]) -> RuneId {
     match r {
+      RuneIdRef::ThisBlock(delta) => RuneId {
+        block: u64::from(m.block.height),
+        tx: m.block.tx_index + delta,
+      },
       RuneIdRef::Held(k) => {
         if held.is_empty() {
           self.resolve_rune_id(m, &RuneIdRef::Known(*k), held)
